@@ -4,7 +4,9 @@ import (
 	"bytes"
 	"errors"
 	"fmt"
+	"os"
 	"reflect"
+	"runtime/debug"
 	"strings"
 
 	"github.com/miekg/dns"
@@ -22,7 +24,10 @@ type lenCase struct {
 	Spell    uint64 `json:",omitempty"` // representation choices for the library value (0: canonical); never with Plain
 	// names (owners, question names, RDATA names) and whole RDATAs left at their zero value after the
 	// model message was turned into the library value (see empty_test.go)
-	Blank     []blankSlot `json:",omitempty"`
+	Blank []blankSlot `json:",omitempty"`
+	// type lists (NSEC, NSEC3, CSYNC, NXT) and SvcParams (SVCB, HTTPS) rearranged after the model message
+	// was turned into the library value (see order_test.go)
+	Order     []orderSlot `json:",omitempty"`
 	LowerOnly bool        `json:",omitempty"` // Plain, but the equality is not asserted (known finding empty-name-counted)
 }
 
@@ -52,17 +57,13 @@ func checkLen(c lenCase) error {
 		pbt.Class("alternative-representation")
 	}
 	exact := c.Plain && !c.LowerOnly
-	blanked := false
-	if len(c.Blank) > 0 {
-		names, zeroed := applyBlank(lib, &m, c.Blank)
-		blanked = names+zeroed > 0
-	}
-	if blanked {
-		// The model has no image of a name that is "not even the root". The emptied message holds
-		// fewer octets than the packable message it was made from, so it is within every limit; the
-		// question whether the packer takes "" at all is not C08's: a refusal that a roomy caller's
-		// buffer does not cure puts the case outside the domain, one that it cures was for lack of room.
-		modelLen := len(w)
+	// The model has no verdict on a message whose names were emptied or whose lists were rearranged
+	// (see empty_test.go, order_test.go): "can be packed" is observed. Such a message holds no more
+	// octets than the packable message it was made from, so it is within every limit; the question
+	// whether the packer takes it at all is not C08's: a refusal that a roomy caller's buffer does
+	// not cure puts it outside the domain, one that it cures was for lack of room.
+	modelLen := len(w)
+	observe := func(what string) (uncompressed []byte, verdict error, refused bool) {
 		packUnder := func(compress bool) ([]byte, error, bool) {
 			lib.Compress = compress
 			defer func() { lib.Compress = c.Compress }()
@@ -71,17 +72,43 @@ func checkLen(c lenCase) error {
 				return out, nil, false
 			}
 			if _, e2 := lib.PackBuffer(make([]byte, modelLen+64)); e2 == nil {
-				return nil, pbt.Errf("Pack ran out of room on a message with empty names (Len()=%d, compress=%v): %v - the same message packs into a caller's buffer of %d octets", lib.Len(), compress, err, modelLen+64), false
+				return nil, pbt.Errf("Pack ran out of room on a message with %s (Len()=%d, compress=%v): %v - the same message packs into a caller's buffer of %d octets", what, lib.Len(), compress, err, modelLen+64), false
 			}
 			return nil, nil, true
 		}
 		out, verdict, refused := packUnder(false)
 		if verdict == nil && !refused && c.Compress {
-			w = out
 			_, verdict, refused = packUnder(true)
-		} else if verdict == nil && !refused {
-			w = out
 		}
+		return out, verdict, refused
+	}
+	reordered := false
+	var orderCl []string
+	if len(c.Order) > 0 {
+		n, cl, desc, undo := applyOrder(lib, &m, c.Order)
+		if n > 0 {
+			_, verdict, refused := observe("a list in the caller's order (" + strings.TrimSpace(desc) + ")")
+			if verdict != nil {
+				return verdict
+			}
+			orderCl = cl
+			if refused {
+				// outside the domain; the case goes on with the ascending lists
+				undo()
+				orderCl = append(orderCl, "list-order-refused")
+			} else {
+				reordered = true
+				orderCl = append(orderCl, "list-order-packed")
+			}
+		}
+	}
+	blanked := false
+	if len(c.Blank) > 0 {
+		names, zeroed := applyBlank(lib, &m, c.Blank)
+		blanked = names+zeroed > 0
+	}
+	if blanked {
+		out, verdict, refused := observe("empty names")
 		if verdict != nil {
 			return verdict
 		}
@@ -89,6 +116,7 @@ func checkLen(c lenCase) error {
 			pbt.Note(nil, false, "empty-names-refused")
 			return nil
 		}
+		w = out
 	}
 	predicted := lib.Len()
 	p, err := lib.Pack()
@@ -125,6 +153,7 @@ func checkLen(c lenCase) error {
 			classes = append(classes, "empty-names-exactness-asserted")
 		}
 	}
+	classes = append(classes, orderCl...)
 	if len(w) > 16384 {
 		classes = append(classes, "beyond-16384")
 	}
@@ -134,7 +163,7 @@ func checkLen(c lenCase) error {
 	pbt.Note(append(p, byte(len(classes))), hasPtr || special, classes...)
 
 	if predicted < len(p) {
-		return pbt.Errf("Len()=%d under-estimates Pack()=%d octets (compress=%v)", predicted, len(p), c.Compress)
+		return pbt.Errf("Len()=%d under-estimates Pack()=%d octets (compress=%v)%s", predicted, len(p), c.Compress, orderNote(reordered))
 	}
 	if exact && predicted != len(p) {
 		return pbt.Errf("escape-free message of the common types: Len()=%d but Pack() produced %d octets (compress=%v)%s", predicted, len(p), c.Compress, blankNote(blanked))
@@ -144,7 +173,7 @@ func checkLen(c lenCase) error {
 	}
 	// single records
 	var libRecs []dns.RR
-	if blanked {
+	if blanked || reordered {
 		libRecs = append(append(append(libRecs, lib.Answer...), lib.Ns...), lib.Extra...)
 	}
 	for ri, r := range m.AllRecs() {
@@ -152,8 +181,8 @@ func checkLen(c lenCase) error {
 		if err != nil {
 			continue
 		}
-		if blanked && ri < len(libRecs) {
-			rr = libRecs[ri] // the record as it stands in the message, with its emptied names
+		if ri < len(libRecs) {
+			rr = libRecs[ri] // the record as it stands in the message, with its emptied names / its list in the caller's order
 		}
 		rw, err := wm.EncodeRR(r)
 		if err != nil {
@@ -165,7 +194,7 @@ func checkLen(c lenCase) error {
 			return pbt.Errf("PackRR(%s) failed: %v", typeName(r.Type), err)
 		}
 		if l := dns.Len(rr); l < off {
-			return pbt.Errf("Len(rr)=%d under-estimates the %d packed octets of a %s record", l, off, typeName(r.Type))
+			return pbt.Errf("Len(rr)=%d under-estimates the %d packed octets of a %s record%s", l, off, typeName(r.Type), orderNote(reordered))
 		} else if exact && l != off {
 			return pbt.Errf("Len(rr)=%d but a plain %s record packs to %d octets%s", l, typeName(r.Type), off, blankNote(blanked))
 		}
@@ -251,6 +280,7 @@ func checkLen(c lenCase) error {
 		lens = append(sel, ul+1)
 	}
 	arena := make([]byte, ul+400)
+	dirtyTemplate := bytes.Repeat([]byte{0xA5}, len(arena))
 	for _, l := range lens {
 		if l < 0 {
 			continue
@@ -260,9 +290,7 @@ func checkLen(c lenCase) error {
 			caps = []int{l, ul + 400}
 		}
 		for _, c2 := range caps {
-			for i := range arena {
-				arena[i] = 0xA5
-			}
+			copy(arena, dirtyTemplate) // every call starts from a buffer full of debris
 			buf := arena[:l:c2]
 			pb, err := lib.PackBuffer(buf)
 			if err != nil {
@@ -291,6 +319,13 @@ func blankClass(s blankSlot) int {
 	return 2
 }
 
+func orderNote(reordered bool) string {
+	if reordered {
+		return " (a type list / SvcParams in the caller's order, see the Order slots of the case)"
+	}
+	return ""
+}
+
 func blankNote(blanked bool) string {
 	if blanked {
 		return " (names or RDATA left at the zero value, see the Blank slots of the case)"
@@ -310,7 +345,7 @@ func genAny(t *rapid.T) lenCase {
 	if rapid.IntRange(0, 3).Draw(t, "respell") == 0 {
 		c.Spell = rapid.Uint64().Draw(t, "spell")
 	}
-	return withBlank(t, c)
+	return withOrder(t, withBlank(t, c))
 }
 
 func genPlain(t *rapid.T) lenCase {
@@ -404,7 +439,7 @@ func genBoundary(t *rapid.T) lenCase {
 	}
 	_, plain := map[uint16]bool{wm.TNS: true, wm.TCNAME: true, wm.TSOA: true, wm.TMX: true, wm.TPTR: true, wm.TMINFO: true, wm.TSRV: true, wm.TDNAME: true,
 		wm.TRP: true, wm.TAFSDB: true, wm.TKX: true, wm.TNAPTR: true}[typ]
-	return withBlank(t, lenCase{M: m, Compress: rapid.IntRange(0, 3).Draw(t, "compress") != 0, Plain: plain})
+	return withOrder(t, withBlank(t, lenCase{M: m, Compress: rapid.IntRange(0, 3).Draw(t, "compress") != 0, Plain: plain}))
 }
 
 // genSuffixDense: names made of very many one-octet labels - every label start is a possible
@@ -436,8 +471,15 @@ func genSuffixDense(t *rapid.T) lenCase {
 }
 
 func init() {
+	// The cases are small and short-lived: with the default pacing the collector runs every few
+	// milliseconds and, on a loaded machine, costs as much as the checks themselves.
+	if os.Getenv("GOGC") == "" {
+		debug.SetGCPercent(400)
+	}
+	// first: small and complete, so a failure is reported with a one-record message
+	pbt.RegisterEnum(pbt.Enum[lenCase]{Name: "type-list-orders", Exhaustive: true, Each: eachOrder, Check: checkLen})
 	pbt.Register(pbt.Sub[lenCase]{Name: "len-suffix-dense", Weight: 0.05, Gen: genSuffixDense, Check: checkLen})
-	pbt.Register(pbt.Sub[lenCase]{Name: "len-at-16384", Weight: 6, Gen: genBoundary, Check: checkLen})
+	pbt.Register(pbt.Sub[lenCase]{Name: "len-at-16384", Weight: 5.6, Gen: genBoundary, Check: checkLen})
 	pbt.Register(pbt.Sub[lenCase]{Name: "len-any", Weight: 10, Gen: genAny, Check: checkLen})
 	pbt.Register(pbt.Sub[lenCase]{Name: "len-plain-exact", Weight: 10, Gen: genPlain, Check: checkLen})
 }
